@@ -442,11 +442,19 @@ def run(ctx):
         ctx.attempt(rule45_alloc, ctx, fl, v)
         ctx.attempt(rule4_init_chain, ctx, fl)
         ctx.attempt(rule6_reuse, ctx, v)
+        from . import c11
+        ctx.doc('C10.8', 'values stay with the thread until it is gone: the exit walk resets a slot only where the key has a destructor, so '
+                'the value of a destructor-less key is still what the thread stored while the destructors of its other keys run')
+        v11 = ctx.view(NATIVE, roots=['myth_tls_call_destructors_rec'], stops=('myth_tls_tree_node_free', 'myth_free') + lib.SPIN_STOPS, flavour=fl)
+        ctx.attempt(c11.rule_clear_guard, ctx, v11, 'C10.8')
+        ctx.floor('C10.8', 2)
         ctx.attempt(rule2_levels, ctx, v)
 
 
 TLS = 'src/myth_tls_func.h'
 MUTANTS = [
+    {'name': 'exit walk resets every slot it visits, destructor or not (seed4 C10/m2)', 'expect': 'C10.8',
+     'edits': [(TLS, "      if (destructor) {\n\tn->entries[i].value = 0;\n\tdestructor(val);", "      n->entries[i].value = 0;\n      if (destructor) {\n\tdestructor(val);")]},
     {'name': 'key allocator init chains one cell too far and drops the terminator (seed3 C10/m2)', 'expect': 'C10.4',
      'edits': [(TLS, "  for (i = 0; i < myth_tls_n_keys - 1; i++) {\n    s->keys[i].next = &s->keys[i + 1];\n  }\n  s->keys[myth_tls_n_keys - 1].next = 0;", "  for (i = 0; i < myth_tls_n_keys; i++) {\n    s->keys[i].next = &s->keys[i + 1];\n  }")]},
     {'name': 'key allocator dealloc releases the lock on the rejected-index path too (seed3 C10/m3)', 'expect': 'C10.5',
